@@ -533,6 +533,15 @@ EnableDeferred(s, on) ==
   IN [s1 EXCEPT !.deferred = on, !.ret = Void]
 EnableFast(s, on) == [s EXCEPT !.fast = on, !.ret = Void]
 
+(* StatusAttrib::garbage_collection (Attribs/StatusAttribT_impl.hh:49-144): *)
+(* force deferred deletion, delete the status-marked live vertices, edges, *)
+(* faces, cells (in that order, each kind in ascending handle order),      *)
+(* optionally enable all incidences and delete faces without incident      *)
+(* cell, then edges of valence 0, then vertices of valence 0; collect;      *)
+(* restore the deferred flag.  marks = [V, E, F, C] (sets of handles).      *)
+DelMarked(s, hs, isdel(_, _), del(_, _)) ==   \* hs: ascending sequence of handles
+  FoldLeft(LAMBDA t, h : IF isdel(t, h) THEN t ELSE del(t, h), s, hs)
+
 (* --------------------------- caches on / off --------------------------- *)
 LiveSeq(del) == SelectSeq([i \in 1 .. Len(del) |-> i - 1], LAMBDA h : ~At(del, h))
 
@@ -565,6 +574,23 @@ EnableFBU(s, on) ==
                       !.fbu = on, !.ret = Void]
   IN IF on /\ ~s.fbu /\ s.ebu THEN ReorderAll(s1, LiveSeq(s.edel)) ELSE s1
 
+StatusGC(s0, marks, manifold) ==
+  LET s1 == [s0 EXCEPT !.deferred = TRUE]   \* enable_deferred_deletion(true): nothing to collect when switching on
+      s2 == DelMarked(s1, SortedSeq(marks.V), LAMBDA t, h : At(t.vdel, h), DeleteVertex)
+      s3 == DelMarked(s2, SortedSeq(marks.E), LAMBDA t, h : At(t.edel, h), DeleteEdge)
+      s4 == DelMarked(s3, SortedSeq(marks.F), LAMBDA t, h : At(t.fdel, h), DeleteFace)
+      s5 == DelMarked(s4, SortedSeq(marks.C), LAMBDA t, h : At(t.cdel, h), DeleteCell)
+      m1 == EnableFBU(EnableEBU(EnableVBU(s5, TRUE), TRUE), TRUE)
+      m2 == DelMarked(m1, [i \in 1 .. Len(m1.faces) |-> i - 1],
+                      LAMBDA t, h : At(t.fdel, h) \/ At(t.inc, 2 * h) # -1 \/ At(t.inc, 2 * h + 1) # -1, DeleteFace)
+      m3 == DelMarked(m2, [i \in 1 .. Len(m2.edges) |-> i - 1],
+                      LAMBDA t, h : At(t.edel, h) \/ At(t.hehf, 2 * h) # <<>>, DeleteEdge)
+      m4 == DelMarked(m3, [i \in 1 .. m3.nv |-> i - 1],
+                      LAMBDA t, h : At(t.vdel, h) \/ At(t.out, h) # <<>>, DeleteVertex)
+      s6 == IF manifold THEN m4 ELSE s5
+      s7 == CollectGarbage(s6)
+  IN EnableDeferred(s7, s0.deferred)
+
 (* clear(clearProps): everything emptied, modes and incidence flags kept;  *)
 (* the model's tracked property vectors are emptied in both variants       *)
 Clear(s, clearProps) ==
@@ -574,6 +600,17 @@ Clear(s, clearProps) ==
 (* ------------------------------ dispatcher ----------------------------- *)
 (* call record: [op, a, b, c, l, f]                                        *)
 Call(op, a, b, l, f) == [op |-> op, a |-> a, b |-> b, l |-> l, f |-> f]
+
+(* marks of a status_gc call are passed flat: <<nV, v.., nE, e.., nF, f.., nC, c..>> *)
+MarksOf(l) ==
+  LET nV == l[1]
+      nE == l[2 + nV]
+      nF == l[3 + nV + nE]
+      nC == l[4 + nV + nE + nF]
+  IN [V |-> {l[1 + i] : i \in 1 .. nV},
+      E |-> {l[2 + nV + i] : i \in 1 .. nE},
+      F |-> {l[3 + nV + nE + i] : i \in 1 .. nF},
+      C |-> {l[4 + nV + nE + nF + i] : i \in 1 .. nC}]
 
 Apply(s0, c) ==
   LET s == Tag(s0) IN
@@ -601,5 +638,6 @@ Apply(s0, c) ==
     [] c.op = "enable_ebu"     -> EnableEBU(s, c.f)
     [] c.op = "enable_fbu"     -> EnableFBU(s, c.f)
     [] c.op = "clear"          -> Clear(s, c.f)
+    [] c.op = "status_gc"      -> StatusGC(s, MarksOf(c.l), c.f)
 
 =============================================================================
